@@ -141,8 +141,11 @@ CLAIMS = {
        "the prompt; a read ending at the prompt leaves exactly the output in the stream; detaching empties the hold-back buffer and "
        "nothing is forwarded afterwards; regex prompts: prefix law and exact output after the exit flush; the ASCII projection of the "
        "decoded fragments equals that of the bytes for EVERY fragmentation; Spec.C08 holds for every case without nesting and without "
-       "prompt changes under a suppressing attachment. The Spec's monitor is evaluated on the real Channel (text written to attached "
-       "stream objects).",
+       "prompt changes under a suppressing attachment; C08.case_spec_overlapping / stream_gets_exactly_its_window: for attachments that "
+       "all show the prompt, opened and ended in ANY order (detach by stream, not last-in-first-out), every stream receives exactly "
+       "the text of what was delivered while it was attached. The Spec's monitor is evaluated on the real Channel (text written to "
+       "attached stream objects); a consumer-level family compares the log event of the real Bash/Ash/U-Boot exec with the output "
+       "returned (also with interactive commands in between).",
   note="partial: three shapes are excluded and listed as known findings (nested attachments with different modes, nested suppressing "
        "attachments, prompt changed while a suppressing attachment is open) — the unrestricted statement is proved false on "
        "witnesses that replay on the implementation; text identity beyond the ASCII projection holds only when no fragment boundary "
